@@ -180,10 +180,48 @@ def par_4(ctx, rep):
 
 
 # ---------------------------------------------------------------------------
+def guarded_by_eq(cfg, target, left_suffix, value):
+    """``target`` is reachable only when `<...left_suffix> == value` holds (written with == or !=)."""
+    removed = set()
+    for t in cfg.nodes:
+        if t.kind == 'test' and isinstance(t.ast, ast.Compare) and len(t.ast.ops) == 1 \
+                and isinstance(t.ast.ops[0], (ast.Eq, ast.NotEq)):
+            l, r = t.ast.left, t.ast.comparators[0]
+            if isinstance(l, ast.Constant):
+                l, r = r, l
+            if norm(l).endswith(left_suffix) and isinstance(r, ast.Constant) and r.value == value:
+                removed.add((t, 'T' if isinstance(t.ast.ops[0], ast.Eq) else 'F'))
+    return bool(removed) and target not in reachable_with_edges_removed(cfg, removed)
+
+
+def recovery_helpers(ctx):
+    """Parser.error_recovery plus the methods of Parser that are only called from it (transitively)."""
+    prog = ctx.prog
+    root = prog.func(PY, 'Parser.error_recovery')
+    cls = prog.cls(PY, 'Parser')
+    callers = {}
+    for g in prog.funcs.values():
+        for site in ctx.cg.sites[g.key]:
+            for t in site.targets:
+                callers.setdefault(t.key, set()).add(g.key)
+    ok = {root.key}
+    changed = True
+    while changed:
+        changed = False
+        for m in cls.methods.values():
+            if m.key in ok or m.name in ('parse', '__init__', 'convert_node', 'convert_leaf', '_recovery_tokenize'):
+                continue
+            cs = callers.get(m.key, set())
+            if cs and cs <= ok:
+                ok.add(m.key)
+                changed = True
+    return ok
+
+
 def par_5(ctx, rep):
     rep.rule('PAR-5', 'the DFA state of a stack entry is changed only by plan application and by the two enumerated '
-                      'recovery shortcuts (missing final newline: only into an accepting state without pushes; '
-                      'forced stmt arc inside a suite)')
+                      'recovery shortcuts (missing final newline: only for simple_stmt, into an accepting state, without '
+                      'pushes; forced stmt arc inside a suite), in error_recovery or a helper only it calls')
     prog = ctx.prog
     found = []
     for rel in (BASE, PY, DIFF):
@@ -194,6 +232,7 @@ def par_5(ctx, rep):
                 for t in tg:
                     if isinstance(t, ast.Attribute) and t.attr == 'dfa':
                         found.append((rel, qual_of(mod, n), n))
+    helpers = recovery_helpers(ctx)
     for rel, q, n in found:
         if q == 'StackNode.__init__':
             continue
@@ -205,18 +244,17 @@ def par_5(ctx, rep):
         node = node[0]
         val = norm(n.value)
         if q == 'BaseParser._add_token':
-            # plan application: the value is next_dfa of the plan looked up for this very token
             ok = val.endswith('.next_dfa')
             rep.ob('PAR-5', rel, q, norm(n), ok, 'state store in the engine is not a plan application')
-        elif q == 'Parser.error_recovery' and val.endswith('.next_dfa'):
+        elif f.key in helpers and val.endswith('.next_dfa'):
             ok = only_via(cfg, node, lambda e: norm(e).endswith('next_dfa.is_final'), 'T') and \
                 only_via(cfg, node, lambda e: norm(e).endswith('.dfa_pushes'), 'F') and \
-                only_via(cfg, node, lambda e: "from_rule == 'simple_stmt'" in norm(e), 'T')
-            rep.ob('PAR-5', rel, q, norm(n), ok,
+                guarded_by_eq(cfg, node, 'from_rule', 'simple_stmt')
+            rep.ob('PAR-5', rel, q, 'missing-final-newline shortcut: <entry>.dfa = <plan>.next_dfa', ok,
                    'missing-final-newline shortcut is not restricted to simple_stmt / accepting target state / no pushes')
-        elif q == 'Parser.error_recovery' and "arcs['stmt']" in val:
-            ok = only_via(cfg, node, lambda e: "nonterminal == 'suite'" in norm(e), 'T')
-            rep.ob('PAR-5', rel, q, norm(n), ok, 'forced stmt arc outside a suite stack entry')
+        elif f.key in helpers and "arcs['stmt']" in val:
+            ok = guarded_by_eq(cfg, node, 'nonterminal', 'suite')
+            rep.ob('PAR-5', rel, q, "forced stmt arc: <entry>.dfa = <entry>.dfa.arcs['stmt']", ok, 'forced stmt arc outside a suite stack entry')
         else:
             rep.ob('PAR-5', rel, q, norm(n), False, 'parser state forced outside plan application (not an enumerated recovery shortcut)')
     rep.minimum('PAR-5', 3)
@@ -299,6 +337,46 @@ def par_6(ctx, rep):
                     todo.append(s)
     rep.ob('PAR-6', PY, rt.qual, 'every token is forwarded unless the omit list is non-empty', bad is None and bool(yields) and bool(nonempty_tests),
            'a token can be dropped by the recovery filter although no indent was discarded (at %s)' % (head(bad.stmt) if bad is not None else '?'))
+    # PAR-6b: once strict mode has raised, the recovering parser must mark an error on every path: an error node
+    # (a true result of _stack_removal, see PAR-7) or an error leaf appended to the stack
+    flag_tests = [t for t in cfg.nodes if t.kind == 'test' and flag(t.ast)]
+    starts = [s2 for t in flag_tests for s2, lab in t.succ if lab == 'T']
+    marking = set()
+    for n in cfg.nodes:
+        if n.kind == 'stmt' and calls_in(n, lambda c: is_method_call(c, 'append') and norm(c.func.value).endswith('.nodes')
+                                         and 'error_leaf' in norm(c)):
+            marking.add(n)
+    seen_ = set()
+    todo_ = list(starts)
+    unmarked = None
+    prev_ = {}
+    while todo_:
+        x = todo_.pop()
+        if x in seen_:
+            continue
+        seen_.add(x)
+        if x is cfg.exit:
+            unmarked = x
+            break
+        if x in marking:
+            continue
+        for s2, lab in x.succ:
+            if lab == 'exc':
+                continue
+            if x.kind == 'test' and isinstance(x.ast, ast.Call) and is_method_call(x.ast, '_stack_removal') and lab == 'T':
+                continue        # an error node was created
+            if s2 not in seen_:
+                prev_.setdefault(s2, x)
+                todo_.append(s2)
+    trail_ = []
+    k = unmarked
+    while k is not None and k in prev_:
+        k = prev_[k]
+        if k.stmt is not None:
+            trail_.append(head(k.stmt))
+    rep.ob('PAR-6', PY, f.qual, 'recovery-only region: every path creates an error node or an error leaf', bool(starts) and unmarked is None,
+           'after strict mode has raised, the recovering parser can accept the token without recording an error: %s'
+           % ' <- '.join(trail_[:5]), witness=trail_[:6] or None)
     # strict mode builds its error leaf from the token fields
     b = prog.func(BASE, 'BaseParser.error_recovery')
     ok = False
@@ -529,34 +607,143 @@ def par_1(ctx, rep):
     # ---- Parser.error_recovery ----------------------------------------------------
     f = prog.func(PY, 'Parser.error_recovery')
     cfg = ctx.cfg(f)
-    refeed = nodes_calling(cfg, lambda c: is_method_call(c, '_add_token'))
-    strict = nodes_calling(cfg, lambda c: is_method_call(c, 'error_recovery'))
-    eleaf = [n for n in cfg.nodes if n.kind == 'stmt' and calls_in(
-        n, lambda c: is_method_call(c, 'append') and norm(c.func.value).endswith('.nodes') and 'error_leaf' in norm(c))]
-    consume = set(refeed) | set(strict) | set(eleaf)
-    rep.ob('PAR-1', PY, f.qual, 're-feed, strict exit and error-leaf sites', len(refeed) == 2 and len(strict) == 1 and len(eleaf) == 1,
-           'found %d re-feeds, %d strict exits, %d error-leaf appends' % (len(refeed), len(strict), len(eleaf)))
-    for n in refeed:
-        c = calls_in(n, lambda c: is_method_call(c, '_add_token'))[0]
-        rep.ob('PAR-1', PY, f.qual, norm(c), [norm(a) for a in c.args] == ['token'], 're-feed does not pass the same token')
-    p = find_path(cfg, [cfg.entry], lambda n: n is cfg.exit, lambda n: n in consume)
-    rep.ob('PAR-1', PY, f.qual, 'every normal exit consumes the token', p is None,
-           'recovery path that drops the token: %s' % (' -> '.join(path_text(p)) if p else ''),
-           witness=path_text(p) if p else None)
-    twice = None
+    tokp = f.params()[1]
+    summaries = _consumer_summaries(ctx, f, tokp)
+    direct = {}
+    for n in cfg.nodes:
+        for c in calls_in(n, lambda c: True):
+            if (is_method_call(c, '_add_token') or (is_method_call(c, 'error_recovery') and 'super()' in norm(c.func))) \
+                    and [norm(a) for a in c.args] == [tokp]:
+                direct[n] = c
+            elif is_method_call(c, '_add_token') or (is_method_call(c, 'error_recovery') and 'super()' in norm(c.func)):
+                rep.ob('PAR-1', PY, f.qual, norm(c), False, 're-feed / strict exit does not pass the same token')
+        if n.kind == 'stmt' and calls_in(n, lambda c: is_method_call(c, 'append') and norm(c.func.value).endswith('.nodes')):
+            ap = calls_in(n, lambda c: is_method_call(c, 'append'))[0]
+            arg = ap.args[0] if ap.args else None
+            # the appended object is an error leaf built from the four token fields
+            if isinstance(arg, ast.Name) and _is_error_leaf_of(f, arg.id, tokp):
+                direct[n] = ap
+                rep.ob('PAR-1', PY, f.qual, norm(ap), norm(ap.func.value) == 'self.stack[-1].nodes',
+                       'error leaf is not appended to the top stack entry')
+    cond = {}        # test node -> label under which the helper consumed the token
+    for n in cfg.nodes:
+        if n.kind == 'test' and isinstance(n.ast, ast.Call) and isinstance(n.ast.func, ast.Attribute) \
+                and norm(n.ast.func.value) == 'self' and n.ast.func.attr in summaries:
+            if [norm(a) for a in n.ast.args][:1] == [tokp] or tokp in [norm(a) for a in n.ast.args]:
+                cond[n] = summaries[n.ast.func.attr]
+    # helper calls outside a test position cannot be accounted for
+    for n in cfg.nodes:
+        if n.kind != 'test':
+            for c in calls_in(n, lambda c: isinstance(c.func, ast.Attribute) and norm(c.func.value) == 'self'
+                              and c.func.attr in summaries):
+                if summaries[c.func.attr] == 'always':
+                    direct[n] = c
+                else:
+                    rep.ob('PAR-1', PY, f.qual, norm(c), False,
+                           'helper that consumes the token conditionally is called without testing its result')
+    rep.ob('PAR-1', PY, f.qual, 'consumption sites: re-feed / strict exit / error leaf', len(direct) + len(cond) >= 3,
+           'found only %d sites' % (len(direct) + len(cond)))
     flow = FactFlow(cfg)
-    for c in consume:
-        starts = [s for s, lab in c.succ if lab != 'exc']
-        q = find_path(cfg, starts, lambda n: n in consume, lambda n: False, flow=flow)
-        if q:
-            twice = (c, q[-1])
+    start = (cfg.entry, frozenset(), 0)
+    seen = {start: None}
+    todo = [start]
+    dropped = twice = None
+    while todo:
+        st = todo.pop(0)
+        node, facts, cnt = st
+        if node is cfg.exit:
+            if cnt == 0 and dropped is None:
+                dropped = st
+            continue
+        for s2, lab, f2 in flow.successors(node, facts):
+            c2 = cnt
+            if node in direct:
+                c2 = cnt + 1
+            elif node in cond and cond[node] == lab:
+                c2 = cnt + 1
+            if c2 >= 2:
+                if twice is None:
+                    twice = (st, s2)
+                continue
+            nxt = (s2, f2, c2)
+            if nxt not in seen:
+                seen[nxt] = st
+                todo.append(nxt)
+
+    def trail(st):
+        out = []
+        while st is not None:
+            out.append(st[0])
+            st = seen.get(st)
+        return path_text(list(reversed(out)))
+    rep.ob('PAR-1', PY, f.qual, 'every normal exit consumes the token', dropped is None,
+           'recovery path that drops the token: %s' % (' -> '.join(trail(dropped)) if dropped else ''),
+           witness=trail(dropped) if dropped else None)
     rep.ob('PAR-1', PY, f.qual, 'the token is consumed at most once', twice is None,
-           'token consumed twice: %s then %s' % ((head(twice[0].stmt), head(twice[1].stmt)) if twice else ('', '')))
-    if eleaf:
-        ap = calls_in(eleaf[0], lambda c: is_method_call(c, 'append'))[0]
-        rep.ob('PAR-1', PY, f.qual, norm(ap), norm(ap.func.value) == 'self.stack[-1].nodes',
-               'error leaf is not appended to the top stack entry')
+           'token consumed twice on the path %s' % (' -> '.join(trail(twice[0])) if twice else ''))
     rep.minimum('PAR-1', 14)
+
+
+def _is_error_leaf_of(f, name, tokp):
+    """Local ``name`` is assigned exactly from <ErrorLeaf class>(typ[.name], value, start_pos, prefix) where the
+    four names are unpacked from the token."""
+    vals = [n.value for n in walk_own(f.node) if isinstance(n, ast.Assign)
+            and any(isinstance(t, ast.Name) and t.id == name for t in n.targets)]
+    if len(vals) != 1 or not isinstance(vals[0], ast.Call) or not norm(vals[0].func).endswith('ErrorLeaf'):
+        return False
+    unpack = [n for n in walk_own(f.node) if isinstance(n, ast.Assign) and norm(n.value) == tokp
+              and isinstance(n.targets[0], ast.Tuple) and len(n.targets[0].elts) == 4]
+    if not unpack:
+        return False
+    names = [norm(e) for e in unpack[0].targets[0].elts]
+    args = [_leafname(a) for a in vals[0].args]
+    return args == names
+
+
+def _consumer_summaries(ctx, f, tokp):
+    """Helper methods of the same class that re-feed the token: name -> 'T' | 'F' (consumes exactly when it
+    returns a true / false constant) | 'always'.  Helpers that cannot be summarised are reported by the caller
+    because they are not in the result (their calls are ordinary nodes and the token count stays unchanged)."""
+    cls = ctx.cg.owner_class(f)
+    out = {}
+    if cls is None:
+        return out
+    for name, m in cls.methods.items():
+        if m is f or name in ('_add_token', 'error_recovery', 'parse'):
+            continue
+        calls = [c for c in walk_own(m.node) if isinstance(c, ast.Call) and is_method_call(c, '_add_token')]
+        if not calls:
+            continue
+        cfg = ctx.cfg(m)
+        consuming = set(nodes_calling(cfg, lambda c: is_method_call(c, '_add_token')))
+        rets = [n for n in cfg.nodes if n.kind == 'stmt' and isinstance(n.ast, ast.Return)]
+        verdict = {}
+        ok = True
+        for r in rets:
+            v = r.ast.value
+            truth = bool(v.value) if isinstance(v, ast.Constant) else (False if v is None else None)
+            if truth is None:
+                ok = False
+                break
+            # does every path to this return pass through exactly one consuming node?
+            without = r in cfg.reachable(blocked=consuming, labels_blocked=('exc',))
+            through = any(r in cfg.reachable(start=c, labels_blocked=('exc',)) for c in consuming)
+            if without and through:
+                ok = False
+                break
+            verdict.setdefault(truth, set()).add(through)
+        falls_off = cfg.exit in cfg.reachable(blocked=rets, labels_blocked=('exc',))
+        if falls_off:
+            verdict.setdefault(False, set()).add(cfg.exit in cfg.reachable(blocked=consuming, labels_blocked=('exc',)) is False)
+        if not ok:
+            continue
+        if verdict.get(True) == {True} and verdict.get(False, {False}) == {False}:
+            out[name] = 'T'
+        elif verdict.get(False) == {True} and verdict.get(True, {False}) == {False}:
+            out[name] = 'F'
+        elif all(v == {True} for v in verdict.values()) and verdict:
+            out[name] = 'always'
+    return out
 
 
 def _leafname(v):
@@ -599,8 +786,10 @@ def pop_shape(ctx, rep):
                 if norm(val) == '%s.nodes[0]' % popped:
                     # must be under len(popped.nodes) == 1
                     p_ = getattr(n, '_parent', None)
-                    good = isinstance(p_, ast.If) and n in p_.body and norm(p_.test) in (
-                        'len(%s.nodes) == 1' % popped, '1 == len(%s.nodes)' % popped)
+                    eq = ('len(%s.nodes) == 1' % popped, '1 == len(%s.nodes)' % popped)
+                    ne = ('len(%s.nodes) != 1' % popped, '1 != len(%s.nodes)' % popped, 'not len(%s.nodes) == 1' % popped)
+                    good = isinstance(p_, ast.If) and ((n in p_.body and norm(p_.test) in eq)
+                                                       or (n in p_.orelse and norm(p_.test) in ne))
                     if not good:
                         ok, detail = False, 'first child passed through without a test that it is the only child'
                 elif isinstance(val, ast.Call) and is_method_call(val, 'convert_node') \
